@@ -199,61 +199,56 @@ func (aux *Aux) LoadForm() slip.Object {
 	sort.Strings(keys)
 	for _, k := range keys {
 		method := aux.methods[k]
-		sll := make(slip.List, len(method.Doc.Args))
-		for i, da := range method.Doc.Args {
-			if i < aux.reqCnt && 0 < len(da.Type) {
-				sll[i] = slip.List{slip.Symbol(da.Name), slip.Symbol(da.Type)}
-			} else {
-				if da.Name[0] == '&' || da.Default == nil {
-					sll[i] = slip.Symbol(da.Name)
-				} else {
-					sll[i] = slip.List{slip.Symbol(da.Name), da.Default}
-				}
-			}
-		}
-		var doc slip.Object
-		if 0 < len(aux.docs.Text) {
-			doc = slip.String(aux.docs.Text)
-		}
-		if 0 < len(method.Doc.Text) {
-			doc = slip.String(method.Doc.Text)
-		}
 		if 0 < len(method.Combinations) {
-			if lam, ok := method.Combinations[0].Primary.(*slip.Lambda); ok {
-				mdef := slip.List{slip.Symbol(":method"), sll}
-				if doc != nil {
-					mdef = append(mdef, doc)
+			c := method.Combinations[0]
+			for _, qc := range []struct {
+				qualifier string
+				caller    slip.Caller
+			}{{"", c.Primary}, {":before", c.Before}, {":after", c.After}, {":around", c.Wrap}} {
+				if lam, ok := qc.caller.(*slip.Lambda); ok {
+					gdef = append(gdef, aux.methodOption(qc.qualifier, lam, method))
 				}
-				mdef = append(mdef, lam.Forms...)
-				gdef = append(gdef, mdef)
-			}
-			if lam, ok := method.Combinations[0].Before.(*slip.Lambda); ok {
-				mdef := slip.List{slip.Symbol(":method"), slip.Symbol(":before"), sll}
-				if doc != nil {
-					mdef = append(mdef, doc)
-				}
-				mdef = append(mdef, lam.Forms...)
-				gdef = append(gdef, mdef)
-			}
-			if lam, ok := method.Combinations[0].After.(*slip.Lambda); ok {
-				mdef := slip.List{slip.Symbol(":method"), slip.Symbol(":after"), sll}
-				if doc != nil {
-					mdef = append(mdef, doc)
-				}
-				mdef = append(mdef, lam.Forms...)
-				gdef = append(gdef, mdef)
-			}
-			if lam, ok := method.Combinations[0].Wrap.(*slip.Lambda); ok {
-				mdef := slip.List{slip.Symbol(":method"), slip.Symbol(":around"), sll}
-				if doc != nil {
-					mdef = append(mdef, doc)
-				}
-				mdef = append(mdef, lam.Forms...)
-				gdef = append(gdef, mdef)
 			}
 		}
 	}
 	return gdef
+}
+
+// methodOption returns the :method option of a defgeneric form for one
+// method. The primary, :before, :after, and :around methods of a specializer
+// list each have a lambda list (parameter names and defaults) and a
+// documentation string of their own.
+func (aux *Aux) methodOption(qualifier string, lam *slip.Lambda, method *slip.Method) slip.List {
+	fd := lam.Doc
+	if fd == nil {
+		fd = method.Doc
+	}
+	sll := make(slip.List, len(fd.Args))
+	for i, da := range fd.Args {
+		if i < aux.reqCnt && 0 < len(da.Type) {
+			sll[i] = slip.List{slip.Symbol(da.Name), slip.Symbol(da.Type)}
+		} else {
+			if da.Name[0] == '&' || da.Default == nil {
+				sll[i] = slip.Symbol(da.Name)
+			} else {
+				sll[i] = slip.List{slip.Symbol(da.Name), da.Default}
+			}
+		}
+	}
+	mdef := slip.List{slip.Symbol(":method")}
+	if 0 < len(qualifier) {
+		mdef = append(mdef, slip.Symbol(qualifier))
+	}
+	mdef = append(mdef, sll)
+	switch {
+	case 0 < len(fd.Text):
+		mdef = append(mdef, slip.String(fd.Text))
+	case 0 < len(method.Doc.Text):
+		mdef = append(mdef, slip.String(method.Doc.Text))
+	case 0 < len(aux.docs.Text):
+		mdef = append(mdef, slip.String(aux.docs.Text))
+	}
+	return append(mdef, lam.Forms...)
 }
 
 func (aux *Aux) buildCacheMeth(args slip.List) *slip.Method {
